@@ -48,33 +48,33 @@ type Chooser func(enabled []string, points []string, cur int) int
 
 // Sched is one execution's scheduler. Create a fresh one per execution.
 type Sched struct {
-	mu        sync.Mutex
-	byGoid    map[int64]*thread
-	threads   map[string]*thread
-	adopt     []adoptRule
-	events    chan event
-	Quiet     map[string]bool          // points where the running thread continues without a scheduling choice
-	Interesting map[string]bool        // when non-nil: every point not listed here is quiet
-	Terminal  map[string]bool          // points after which the thread never reports again
-	Daemon    map[string]bool          // threads that may stay parked forever (idle library goroutines)
-	MayBlock  map[string]bool          // points whose action may really block (no enabledness predicate available): the thread is let into it and watched
-	BlockProbe time.Duration
-	SlowProbe  time.Duration
-	Blocks     int // how often a granted thread was found really blocked
-	nblocked  atomic.Int32
-	Override  map[string]func() bool   // enabledness by point name, overriding the hook's own predicate
-	Steps     []Step
-	Deadlock  bool
-	Stuck     string
-	MaxSteps  int
-	Overrun   bool
-	StepHook  func(st Step) // called by the controller before each grant (all threads parked)
-	ParkHook  func(thread, point string) // called by the controller when a granted thread has parked again
-	Current   string        // name of the thread that was granted last
-	StuckWait time.Duration
-	running   bool
-	abandoned atomic.Bool
-	cur       *thread // the thread that was granted last and has not parked since
+	mu          sync.Mutex
+	byGoid      map[int64]*thread
+	threads     map[string]*thread
+	adopt       []adoptRule
+	events      chan event
+	Quiet       map[string]bool // points where the running thread continues without a scheduling choice
+	Interesting map[string]bool // when non-nil: every point not listed here is quiet
+	Terminal    map[string]bool // points after which the thread never reports again
+	Daemon      map[string]bool // threads that may stay parked forever (idle library goroutines)
+	MayBlock    map[string]bool // points whose action may really block (no enabledness predicate available): the thread is let into it and watched
+	BlockProbe  time.Duration
+	SlowProbe   time.Duration
+	Blocks      int // how often a granted thread was found really blocked
+	nblocked    atomic.Int32
+	Override    map[string]func() bool // enabledness by point name, overriding the hook's own predicate
+	Steps       []Step
+	Deadlock    bool
+	Stuck       string
+	MaxSteps    int
+	Overrun     bool
+	StepHook    func(st Step)              // called by the controller before each grant (all threads parked)
+	ParkHook    func(thread, point string) // called by the controller when a granted thread has parked again
+	Current     string                     // name of the thread that was granted last
+	StuckWait   time.Duration
+	running     bool
+	abandoned   atomic.Bool
+	cur         *thread // the thread that was granted last and has not parked since
 }
 
 type adoptRule struct {
@@ -85,18 +85,23 @@ type adoptRule struct {
 // New returns an empty scheduler.
 func New() *Sched {
 	return &Sched{
-		byGoid:    map[int64]*thread{},
-		threads:   map[string]*thread{},
-		events:    make(chan event, 1024),
-		Quiet:     map[string]bool{},
-		Terminal:  map[string]bool{},
-		Daemon:    map[string]bool{},
-		MayBlock:  map[string]bool{},
-		BlockProbe: 300 * time.Microsecond,
-		SlowProbe:  10 * time.Millisecond,
-		Override:  map[string]func() bool{},
-		MaxSteps:  100000,
-		StuckWait: 5 * time.Second,
+		byGoid:   map[int64]*thread{},
+		threads:  map[string]*thread{},
+		events:   make(chan event, 1024),
+		Quiet:    map[string]bool{},
+		Terminal: map[string]bool{},
+		Daemon:   map[string]bool{},
+		MayBlock: map[string]bool{},
+		// how long a granted thread may stay away before it is taken to be inside a really blocking operation.
+		// At MayBlock points that is expected (short probe); anywhere else it only happens when the code under
+		// test blocks where no hook announces it, so the probe is long enough not to mistake a goroutine that
+		// was merely descheduled on a busy machine for a blocked one (two scenario goroutines would then run
+		// at the same time).
+		BlockProbe: 1 * time.Millisecond,
+		SlowProbe:  400 * time.Millisecond,
+		Override:   map[string]func() bool{},
+		MaxSteps:   100000,
+		StuckWait:  5 * time.Second,
 	}
 }
 
